@@ -30,7 +30,7 @@ CLAIMED = {
   "known findings F18 (while a recovery expression runs, its own handler and the ones above it are still in force: the call-site obligation 'handlers out of force' in parseThrowExpr fails) and F19 (Memoize caches throw outcomes whatever handlers are in force: parseExprWrap:ensures[throw-now] fails on the hit path) are excused only inside their regions and while their witnesses reproduce; with -support-left-recursion the leader's memo replays results under other handlers (documented, DESIGN 16.3b, not decided); interaction with the state store is disclaimed by the documentation"),
  "C16": ("proof", "§7 C16",
   "parseExpr charges one unit before any work and panics with errMaxExprCnt exactly when the budget would be exceeded; every parse function keeps the counter within the budget and never decreases it; the unbounded loops of * and + carry the variant maxExprCnt-ExprCnt, the throw loop i+1, the leader loop len(input)-end.",
-  "known finding F6: a memo hit is not charged (Memoize defeats the budget); ExprCnt++ treated as mathematical (wrap needs 2^64 steps)"),
+  "known findings F6 (a memo hit is not charged: Memoize defeats the budget), F21 (with Recover(false) the exhausted budget escapes as a panic instead of being reported: parse:panics[budget-is-an-error]) and F22 (the Statistics option can install a used Stats object, so the count does not start at zero: newParser:ensures[budget-from-zero], proved when no option is given) are excused only inside their regions and while their witnesses reproduce; ExprCnt++ treated as mathematical (wrap needs 2^64 steps)"),
  "C17": ("proof", "§7 C17",
   "read(): offset advances by the previous width, (rune,width) are DecodeRune of the remaining bytes, an invalid byte (U+FFFD, width 1) adds exactly one errInvalidEncoding error at its position unless AllowInvalidUTF8, otherwise the error list is untouched; the any and class matchers test EOF as width 0, so an invalid byte is matched; matched values are the original bytes.",
   "utf8.DecodeRune's contract is assumed; known finding F1 (U+FFFD literal at EOF)"),
